@@ -185,7 +185,7 @@ def explore(case_name, run, fsem="std", max_paths=None):
             out = run(p)
             p.outcome = out
             res.outcomes.append({"path": pid, "outcome": out, "pc": list(p.pc), "facts": list(p.facts),
-                                 "ghost": dict(p.ghost)})
+                                 "ghost": dict(p.ghost), "float_ops": len(p.float_facts)})
         except PathEnd:
             p.outcome = "ended"
         except Inapplicable as e:
@@ -209,41 +209,68 @@ def _smt2(vc):
     return s.to_smt2()
 
 
-def discharge(vc, timeout_ms=None, use_cvc5=True):
-    """proved (unsat) / refuted (sat, with model) / unknown."""
-    t0 = time.time()
+def _z3_check(vc, timeout_ms):
     s = z3.Solver()
-    s.set("timeout", timeout_ms or Z3_TIMEOUT_MS)
+    s.set("timeout", timeout_ms)
     for a in vc.assumptions:
         s.add(a)
     s.add(z3.Not(vc.goal))
     r = s.check()
-    vc.backend = "z3-" + z3.get_version_string()
     if r == z3.unsat:
-        vc.status = "proved"
-    elif r == z3.sat:
-        vc.status = "refuted"
-        vc.model = s.model()
-    else:
-        vc.status = "unknown"
-        vc.note = s.reason_unknown()
-        if use_cvc5 and os.path.exists(CVC5):
-            try:
-                txt = "(set-logic ALL)\n" + _smt2(vc)
-                with tempfile.NamedTemporaryFile("w", suffix=".smt2", delete=False, dir="/var/tmp") as f:
-                    f.write(txt)
-                    fn = f.name
-                try:
-                    out = subprocess.run([CVC5, "--tlimit=%d" % (timeout_ms or Z3_TIMEOUT_MS), fn],
-                                         capture_output=True, text=True, timeout=60).stdout.strip()
-                finally:
-                    os.unlink(fn)
-                if out.startswith("unsat"):
-                    vc.status, vc.backend = "proved", "cvc5-1.0.3"
-                elif out.startswith("sat"):
-                    vc.status, vc.backend, vc.note = "refuted", "cvc5-1.0.3", "cvc5 sat (no model kept)"
-            except Exception as e:      # solver trouble is never a verdict
-                vc.note += f" / cvc5: {e}"
+        return "proved", None, ""
+    if r == z3.sat:
+        return "refuted", s.model(), ""
+    return "unknown", None, s.reason_unknown()
+
+
+def _cvc5_check(vc, timeout_ms):
+    if not os.path.exists(CVC5):
+        return "unknown", "cvc5 not installed"
+    try:
+        txt = "(set-logic ALL)\n" + _smt2(vc)
+        with tempfile.NamedTemporaryFile("w", suffix=".smt2", delete=False, dir="/var/tmp") as f:
+            f.write(txt)
+            fn = f.name
+        try:
+            out = subprocess.run([CVC5, "--tlimit=%d" % timeout_ms, fn], capture_output=True, text=True,
+                                 timeout=timeout_ms / 1000 + 20).stdout.strip()
+        finally:
+            os.unlink(fn)
+        if out.startswith("unsat"):
+            return "proved", ""
+        if out.startswith("sat"):
+            return "refuted", "cvc5 sat (no model kept)"
+        return "unknown", "cvc5: " + out[:80]
+    except Exception as e:          # solver trouble is never a verdict
+        return "unknown", f"cvc5: {e}"
+
+
+def discharge(vc, timeout_ms=None, use_cvc5=True):
+    """proved (unsat) / refuted (sat, with model) / unknown.  z3 with a short budget first (almost
+    every VC takes milliseconds), then cvc5, then z3 again with the full budget."""
+    t0 = time.time()
+    full = timeout_ms or Z3_TIMEOUT_MS
+    vc.backend = "z3-" + z3.get_version_string()
+    vc.status, vc.model, vc.note = _z3_check(vc, min(2000, full))
+    if vc.status == "unknown" and use_cvc5:
+        st, note = _cvc5_check(vc, full)
+        if st == "proved":
+            vc.status, vc.backend, vc.note = "proved", "cvc5-1.0.3", ""
+        elif st == "refuted":
+            # try to obtain a model from z3 for the replay
+            st2, model, note2 = _z3_check(vc, full)
+            if st2 == "refuted":
+                vc.status, vc.model, vc.note = "refuted", model, ""
+            else:
+                vc.status, vc.backend, vc.note = "refuted", "cvc5-1.0.3", note
+        else:
+            vc.note += " / " + note
+    if vc.status == "unknown" and full > 2000:
+        st, model, note = _z3_check(vc, full)
+        if st != "unknown":
+            vc.status, vc.model, vc.note = st, model, ""
+        else:
+            vc.note += " / z3: " + note
     vc.time = time.time() - t0
     return vc
 
